@@ -50,7 +50,9 @@ func VH_C09_K2_header() {
 	vrt.Summarize("crc32_write") // CRC as an uninterpreted fold (its definition is C16-K5)
 	ts, flag := vrt.U32("ts"), vrt.U32("flag")
 	ver := vrt.I32("ver")
-	nk := 1 + vrt.Choice("nk", 2)
+	// key lengths: tiny ones, and the longest legal keys (20 checksummed header bytes + key
+	// cross the 256-byte mark at 237): every key byte must be covered by the CRC
+	nk := []int{1, 2, 235, 236, 237, 249, 250}[vrt.Choice("nk", 7)]
 	nv := vrt.Choice("nv", 3)
 	key, val := vrt.Bytes("key", nk), vrt.Bytes("val", nv)
 	rec := &Record{Key: key, Payload: &Payload{Meta: Meta{TS: ts, Flag: flag, Ver: ver}, CArray: cmem.CArray{Body: val}}}
